@@ -90,7 +90,9 @@ func checkC09(p *Program, r *Report) {
 		"tests them compute the byte index, the bit mask, the loop bound and the hash arguments as the same canonical terms; the two outpoint serialisers fill " +
 		"their buffers identically (hash at 0, little-endian index at 32). C09.formula: the bit number is MurmurHash3(i·0xFBA4C795 + tweak, item) mod (8·len(filter)). " +
 		"C09.clamp: NewFilter passes min(·, MaxFilterLoadFilterSize·8)/8 bytes and min(·, MaxFilterLoadHashFuncs) hash functions. C09.unloaded: writer and reader " +
-		"touch the message only behind a nil test whose other edge returns. Not decided: MurmurHash3's arithmetic (ten suite vectors pin it), modular wrap-around, the floating-point sizing values."
+		"touch the message only behind a nil test whose other edge returns. C09.decides: every branch of the bit-setting and bit-testing functions reads only the " +
+		"loaded message, the item and the loop counter (no shadow state decides membership), a clear bit answers absent, exhausting the hash functions answers present; " +
+		"every exit of the hash helper returns the reduced hash. Not decided: MurmurHash3's arithmetic (ten suite vectors pin it), modular wrap-around, the floating-point sizing values."
 	r.Trusted = []string{"BIP37 constants (seed multiplier 0xFBA4C795, wire limits)", "binary.LittleEndian.PutUint32"}
 	bloomPkg := p.Pkg("bloom")
 	if bloomPkg == nil {
